@@ -373,6 +373,96 @@ fn enc_cases(tier: Tier) -> Vec<EncCase> {
     out
 }
 
+// ---------------------------------------------------------------------------------------------
+// limits configured through the generated client / server builders
+
+#[derive(Clone, Debug)]
+struct GenCase {
+    shape: super::l1::Shape,
+    /// (decoding limit, encoding limit) set on the generated server / client
+    server: (Option<usize>, Option<usize>),
+    client: (Option<usize>, Option<usize>),
+    req_len: usize,
+    resp_len: usize,
+}
+
+fn gen_body(c: &GenCase, ch: &Chooser) -> Outcome {
+    use super::l1::*;
+    use crate::fixtures::echo::echo_client::EchoClient;
+    let script = Script { initial_md: vec![], msgs: vec![vec![0x33; c.resp_len]], end: None, handler_err: false, bidi: BidiMode::ReadAll, disable_compression: false };
+    let (mut server, log) = new_server(script, ch, false);
+    if let Some(l) = c.server.0 {
+        server = server.max_decoding_message_size(l);
+    }
+    if let Some(l) = c.server.1 {
+        server = server.max_encoding_message_size(l);
+    }
+    let capture = std::sync::Arc::new(std::sync::Mutex::new(Capture::default()));
+    let direct = Direct { svc: server, ch: ch.clone(), req_chunking: Chunking::Fixed(vec![]), resp_chunking: Chunking::Fixed(vec![]), capture };
+    let mut client = EchoClient::new(direct);
+    if let Some(l) = c.client.0 {
+        client = client.max_decoding_message_size(l);
+    }
+    if let Some(l) = c.client.1 {
+        client = client.max_encoding_message_size(l);
+    }
+    let req = vec![0x44u8; c.req_len];
+    let view = match crate::env::spin_block_on(client_call(&mut client, c.shape, vec![req.clone()], &vec![], false, ch, |_| {}), 200_000) {
+        Ok(v) => v,
+        Err(_) => {
+            let mut o = Outcome::new("STALLED");
+            o.violate("stall", "call did not complete");
+            return o;
+        }
+    };
+    let log = log.lock().unwrap().clone();
+    let mut o = Outcome::new(format!("msgs={:?} err={:?} handler_msgs={:?} handler_err={:?}", view.msgs.iter().map(|m| m.len()).collect::<Vec<_>>(), view.error.as_ref().map(|e| e.code()), log.req_msgs.iter().map(|m| m.len()).collect::<Vec<_>>(), log.req_err));
+    // reference: the first limit hit on the path request -> handler -> response decides
+    let default_dec = MIB4;
+    let req_ok_client = c.client.1.map(|l| c.req_len <= l).unwrap_or(true);
+    let req_ok_server = c.req_len <= c.server.0.unwrap_or(default_dec);
+    let resp_ok_server = c.server.1.map(|l| c.resp_len <= l).unwrap_or(true);
+    let resp_ok_client = c.resp_len <= c.client.0.unwrap_or(default_dec);
+    o.nontrivial = !(req_ok_client && req_ok_server && resp_ok_server && resp_ok_client);
+    let handler_saw_request = log.req_msgs.iter().any(|m| m.len() == c.req_len);
+    if !req_ok_client || !req_ok_server {
+        if handler_saw_request {
+            o.violate("generated-limit-request-not-enforced", format!("a {}-byte request passed client encoding limit {:?} / server decoding limit {:?} and reached the handler", c.req_len, c.client.1, c.server.0));
+        }
+        if view.error.is_none() && !c.shape.streams_requests() {
+            o.violate("generated-limit-request-not-enforced", format!("a {}-byte request over client encoding limit {:?} / server decoding limit {:?} ended OK", c.req_len, c.client.1, c.server.0));
+        }
+    } else {
+        if !handler_saw_request {
+            o.violate("generated-limit-request-wrongly-refused", format!("a {}-byte request is within client encoding limit {:?} and server decoding limit {:?} but never reached the handler ({:?})", c.req_len, c.client.1, c.server.0, view.error.as_ref().map(crate::env::fmt_status)));
+        } else if !resp_ok_server || !resp_ok_client {
+            match &view.error {
+                Some(e) if e.code() == Code::OutOfRange => {}
+                other => o.violate("generated-limit-response-not-enforced", format!("a {}-byte response exceeds server encoding limit {:?} / client decoding limit {:?} but the caller saw {:?} with messages {:?}", c.resp_len, c.server.1, c.client.0, other.as_ref().map(|e| crate::env::fmt_status(e)), view.msgs.iter().map(|m| m.len()).collect::<Vec<_>>())),
+            }
+        } else if view.error.is_some() || view.msgs.iter().map(|m| m.len()).collect::<Vec<_>>() != vec![c.resp_len] {
+            o.violate("generated-limit-wrongly-refused", format!("everything is within the limits but the caller saw {:?} / {:?}", view.msgs.iter().map(|m| m.len()).collect::<Vec<_>>(), view.error.as_ref().map(crate::env::fmt_status)));
+        }
+    }
+    o
+}
+
+fn gen_cases() -> Vec<GenCase> {
+    use super::l1::Shape;
+    let mut out = vec![];
+    let limits: [(Option<usize>, Option<usize>); 4] = [(None, None), (Some(16), None), (None, Some(16)), (Some(16), Some(16))];
+    for shape in Shape::ALL {
+        for server in limits {
+            for client in limits {
+                for (req_len, resp_len) in [(8usize, 8usize), (17, 8), (8, 17), (16, 16)] {
+                    out.push(GenCase { shape, server, client, req_len, resp_len });
+                }
+            }
+        }
+    }
+    out
+}
+
 pub fn property(tier: Tier) -> Property {
     let dec = Section::new(
         "decode-limit",
@@ -392,12 +482,21 @@ pub fn property(tier: Tier) -> Property {
         enc_body,
     )
     .mins(100, 4, 20);
+    let gen = Section::new(
+        "generated-limits",
+        Config::default(),
+        "cases: generated server and generated client, each configured through its builder with {no limit, decoding limit 16, encoding limit 16, both} (16 combinations) x call shape x (request, response) message lengths {(8,8),(17,8),(8,17),(16,16)}, in-process; oracle: a request over the client's encoding limit or the server's decoding limit never reaches the handler; a response over the server's encoding limit or the client's decoding limit ends the call with OUT_OF_RANGE; anything within every limit on its path is delivered. Non-trivial = some limit is exceeded.",
+        gen_cases(),
+        |c: &GenCase| format!("{c:?}"),
+        gen_body,
+    )
+    .mins(200, 4, 50);
     Property {
         id: "C06",
         level: "model_checking",
         hang_is_violation: false,
         assumptions: vec!["limits outside the menu {0,1,5,64,4 MiB} are represented by these".into()],
-        sections: vec![dec, enc],
+        sections: vec![dec, enc, gen],
         extra: Default::default(),
     }
 }
